@@ -268,6 +268,41 @@ def d2(cx: Cx, ob: Ob) -> None:
         if a != (("attr", me, "prefix"), ("attr", me, "identifier")) or b != (("attr", other, "prefix"), ("attr", other, "identifier")):
             ob.violate(lt.qualname, lt.where, f"__lt__ compares `{show(t[2])[:40]}` < `{show(t[3])[:40]}`; it must be the lexicographic order on (prefix, identifier) of self vs other", detail="pair")
     derived_orderings(cx, ob)
+    field_types_compare_as_strings(cx, ob)
+
+
+def field_types_compare_as_strings(cx: Cx, ob: Ob) -> None:
+    """The pairs that Reference compares and hashes are pairs of the FIELD values: a str subclass used as the type
+    of a field (``Prefix``) that brings its own ``__lt__`` / ``__eq__`` / ``__hash__`` changes what `<`, `==` and
+    hash of the pair - hence of the reference - mean (tuple comparison asks the elements)."""
+    import ast as _ast
+
+    ref = cx.model.classes.get(REF)
+    if ref is None:
+        return
+    for fname, (ann, _v) in ref.fields.items():
+        if ann is None:
+            continue
+        for nm in {n.id for n in _ast.walk(ann) if isinstance(n, _ast.Name)}:
+            ci = next((c for c in cx.model.classes.values() if c.name == nm), None)
+            if ci is None or not cx.model.is_subclass(ci.name, "str"):
+                continue
+            ob.site(f"src/curies/{ci.module.relpath}:{ci.node.lineno} {ci.qualname}", f"str subclass used as type of Reference.{fname}")
+            for d in ("__lt__", "__le__", "__gt__", "__ge__", "__eq__", "__ne__", "__hash__"):
+                m = ci.methods.get(d)
+                if m is None:
+                    continue
+                body = [s_ for s_ in m.node.body if not (isinstance(s_, _ast.Expr) and isinstance(s_.value, _ast.Constant))]
+                txt = _ast.unparse(body[0].value) if len(body) == 1 and isinstance(body[0], _ast.Return) and body[0].value is not None else ""
+                if txt.replace(" ", "") in (f"super().{d}({m.params[1].name})" if len(m.params) > 1 else "", f"str.{d}(self,{m.params[1].name})" if len(m.params) > 1 else "", f"super().{d}()", f"str.{d}(self)"):
+                    continue
+                ob.violate(
+                    m.qualname,
+                    m.where,
+                    f"{ci.name}.{d} overrides the string comparison of the values Reference.{fname} holds (`{txt[:60]}`): `<` / `==` / hash of references go through the pair (prefix, identifier), whose elements are asked - the order is no longer the lexicographic order on the pair (case variants compare equal-ish / out of order), and `<` disagrees with `==`",
+                    witness="sorted([Reference(prefix='b', identifier='1'), Reference(prefix='B', identifier='2')]) vs the order of the (prefix, identifier) tuples of plain strings",
+                    detail=f"field-type-order:{ci.name}.{d}",
+                )
 
 
 def derived_orderings(cx: Cx, ob: Ob) -> None:
@@ -467,11 +502,33 @@ def d3(cx: Cx, ob: Ob) -> None:
     pre = [m for m in base.methods.values() if any(d.startswith("model_validator") for d in m.decorators)]
     if not pre:
         ob.violate(REF, f"src/curies/{base.module.relpath}:{base.node.lineno}", "Reference has no string pre-validator: Reference.model_validate('a:b') fails", detail="no-prevalidator")
+    any_str_branch = False
     for m in pre:
         s = cx.summary(m, ob.id)
         v = ("param", m.params[1].name)
         okp = False
         for t, ctx in s.returns():
+            def _types(g):
+                tt = g.a[2][1] if len(g.a[2]) > 1 else None
+                return [show(y).rsplit(".", 1)[-1] for y in (tt[1] if op(tt) == "tuple" else (tt,))] if tt is not None else []
+
+            inst = [g for g in ctx.guards if g.kind == "guard" and op(g.a) == "call" and callee_name(g.a) == "isinstance" and g.a[2][:1] == (v,)]
+            not_str = any(g.b is False and "str" in _types(g) for g in inst)
+            abcs = [n_ for g in inst if g.b is True for n_ in _types(g) if n_ in ("Sequence", "Collection", "Iterable", "Container", "Sized", "Reversible", "Hashable")]
+            if abcs and not not_str and t != v and not any(g.b is True and "str" in _types(g) for g in inst):
+                ob.violate(
+                    m.qualname,
+                    m.where,
+                    f"the pre-validator takes every `{abcs[0]}` apart as a (prefix, identifier) pair (`{show(t)[:50]}`) - a str IS a {abcs[0]}: a CURIE string that meets the test (two characters long, ..) is unpacked character by character before the string branch can cut it at the separator",
+                    witness="Reference.model_validate('a:') gives prefix='a', identifier=':' instead of ('a', '')",
+                    detail="str-is-a-sequence",
+                )
+                okp = True
+                continue
+            if inst and any(g.b is True for g in inst) and not any(g.b is True and ("str" in _types(g) or set(_types(g)) & {"Sequence", "Collection", "Iterable", "Container", "Sized", "Reversible", "Hashable", "object", "Any"}) for g in inst):
+                # a branch for inputs of another kind (a tuple, a list, a mapping): not string validation
+                ob.site(f"{m.where} {m.qualname}", f"branch for {sorted({n_ for g in inst if g.b is True for n_ in _types(g)})} input: {show(t)[:50]}")
+                continue
             isstr = any(g.kind == "guard" and g.b is True and op(g.a) == "call" and callee_name(g.a) == "isinstance" and g.a[2][0] == v for g in ctx.guards)
             if isstr:
                 ob.site(f"{m.where} {m.qualname}", show(t)[:70])
@@ -511,8 +568,9 @@ def d3(cx: Cx, ob: Ob) -> None:
                 okp = True
             elif t != v:
                 ob.violate(m.qualname, m.where, f"the pre-validator returns `{show(t)[:40]}` for non-string input instead of passing it through", detail="passthrough")
-        if not okp:
-            ob.violate(m.qualname, m.where, "the pre-validator has no branch for string input", detail="no-str-branch")
+        any_str_branch = any_str_branch or okp
+    if pre and not any_str_branch:
+        ob.violate(pre[0].qualname, pre[0].where, "no pre-validator of Reference has a branch for string input", detail="no-str-branch")
 
 
 @obligation("C15-D4", "every class in the Reference hierarchy is frozen (explicitly or by inheritance; none sets frozen=False)", floor=3)
